@@ -287,5 +287,191 @@ pub open spec fn ends_ok(net: &Network, s: Seq<NodeIdx>) -> bool {
             assert(nodes@.subrange(1, nodes@.len() - 1) =~= old.subrange(1, old.len() - 1));
         }
 //@end
+
+// ---- private cost / distance helpers of tour/modifications.rs ------------------------------------------
+//@item solution/src/tour/modifications.rs Tour::dead_head_and_idle_costs_after_node_unchecked
+//@retname r
+//@sig
+    requires self.wf(), pos + 1 < self.len(), tour_len_ok(self.nodes@),
+    ensures r as int == self.network.leg_cost(self.nodes@[pos as int], self.nodes@[pos + 1]),
+//@first
+        proof {
+            assert(self.network.has(self.nodes@[pos as int]) && self.network.has(self.nodes@[pos + 1]));
+            lemma_leg_facts(&self.network, self.nodes@[pos as int], self.nodes@[pos + 1]);
+        }
+//@end
+//@item solution/src/tour/modifications.rs Tour::dead_head_and_idle_costs_after_node
+//@retname r
+//@sig
+    requires self.wf(), tour_len_ok(self.nodes@),
+    ensures r as int == (if pos + 1 < self.len() { self.network.leg_cost(self.nodes@[pos as int], self.nodes@[pos + 1]) } else { 0 }),
+//@end
+//@item solution/src/tour/modifications.rs Tour::dead_head_and_idle_costs_before_node
+//@retname r
+//@sig
+    requires self.wf(), tour_len_ok(self.nodes@),
+    ensures r as int == (if 0 < pos < self.len() { self.network.leg_cost(self.nodes@[pos - 1], self.nodes@[pos as int]) } else { 0 }),
+//@end
+//@item solution/src/tour/modifications.rs Tour::dead_head_and_idle_costs_between_two_nodes
+//@retname r
+//@sig
+    requires self.wf(), self.network.has(node1), self.network.has(node2),
+    ensures r as int == self.network.leg_cost(node1, node2),
+//@first
+        proof { lemma_leg_facts(&self.network, node1, node2); }
+//@end
+//@item solution/src/tour/modifications.rs Tour::service_and_maintenance_costs_by_id
+//@retname r
+//@sig
+    requires self.wf(), self.network.has(node),
+    ensures r as int == self.network.node_cost(node),
+//@first
+        proof { lemma_node_facts(&self.network, node); }
+//@end
+//@item solution/src/tour/modifications.rs Tour::service_and_maintenance_costs_by_pos
+//@retname r
+//@sig
+    requires self.wf(), pos < self.len(),
+    ensures r as int == self.network.node_cost(self.nodes@[pos as int]),
+//@first
+        proof { assert(self.network.has(self.nodes@[pos as int])); }
+//@end
+
+//@item solution/src/tour/modifications.rs Tour::dead_head_distance_of_segment
+//@retname r
+//@viter
+//@sig
+    requires self.wf(), start_pos <= end_pos <= self.len(), tour_len_ok(self.nodes@),
+    ensures r == ddec(mid_p(self.pre(start_pos as int), self.mid(start_pos as int, end_pos as int), self.suf(end_pos as int), self.network.f_leg_dist())),
+        dsmall(mid_p(self.pre(start_pos as int), self.mid(start_pos as int, end_pos as int), self.suf(end_pos as int), self.network.f_leg_dist())),
+//@first
+        proof {
+            let net = &self.network;
+            let m = self.mid(start_pos as int, end_pos as int);
+            assert forall|i: int| 0 <= i < m.len() implies #[trigger] net.has(m[i]) by { assert(net.has(self.nodes@[start_pos + i])); }
+            lemma_dead_head_distance_sum(net, m);
+            lemma_dhd_bounds(net, m);
+            if start_pos > 0 && start_pos < self.len() {
+                assert(net.has(self.nodes@[start_pos - 1]) && net.has(self.nodes@[start_pos as int]));
+                lemma_leg_facts(net, self.nodes@[start_pos - 1], self.nodes@[start_pos as int]);
+            }
+            if end_pos > 0 && end_pos < self.len() {
+                assert(net.has(self.nodes@[end_pos - 1]) && net.has(self.nodes@[end_pos as int]));
+                lemma_leg_facts(net, self.nodes@[end_pos - 1], self.nodes@[end_pos as int]);
+            }
+            let jp = junction(self.pre(start_pos as int), m, net.f_leg_dist());
+            let js = junction(m, self.suf(end_pos as int), net.f_leg_dist());
+            lemma_dist_add_enc(jp, psum(m, net.f_leg_dist()));
+            lemma_dist_add_enc(jp + psum(m, net.f_leg_dist()), js);
+        }
+//@closure-params 0
+    (usize, usize)
+//@closure 0
+    -> (d: Distance) requires self.wf(), p0.0 < self.len(), p0.1 < self.len()
+       ensures d == self.network.locations.sp_distance(self.network.sp_node(self.nodes@[p0.0 as int]).sp_end_location(), self.network.sp_node(self.nodes@[p0.1 as int]).sp_start_location())
+//@end
+
+//@item solution/src/tour/modifications.rs Tour::dead_head_distance_of_new_nodes
+//@retname r
+//@viter
+//@sig
+    requires self.wf(), start_pos <= end_pos <= self.len(), tour_len_ok(self.nodes@),
+        new_nodes@.len() >= 1, all_in_net(&self.network, new_nodes@), tour_len_ok(new_nodes@),
+    ensures r == ddec(mid_p(self.pre(start_pos as int), new_nodes@, self.suf(end_pos as int), self.network.f_leg_dist())),
+        dsmall(mid_p(self.pre(start_pos as int), new_nodes@, self.suf(end_pos as int), self.network.f_leg_dist())),
+//@first
+        proof {
+            let net = &self.network;
+            let m = new_nodes@;
+            lemma_dead_head_distance_sum(net, m);
+            lemma_dhd_bounds(net, m);
+            assert(net.has(m[0]) && net.has(m[m.len() - 1]));
+            if start_pos > 0 {
+                assert(net.has(self.nodes@[start_pos - 1]));
+                lemma_leg_facts(net, self.nodes@[start_pos - 1], m[0]);
+            }
+            if end_pos < self.len() {
+                assert(net.has(self.nodes@[end_pos as int]));
+                lemma_leg_facts(net, m[m.len() - 1], self.nodes@[end_pos as int]);
+            }
+            let jp = junction(self.pre(start_pos as int), m, net.f_leg_dist());
+            let js = junction(m, self.suf(end_pos as int), net.f_leg_dist());
+            lemma_dist_add_enc(jp, psum(m, net.f_leg_dist()));
+            lemma_dist_add_enc(jp + psum(m, net.f_leg_dist()), js);
+        }
+//@closure-params 0
+    (&NodeIdx, &NodeIdx)
+//@closure 0
+    -> (d: Distance) requires self.wf(), self.network.has(*p0.0), self.network.has(*p0.1)
+       ensures d == self.network.locations.sp_distance(self.network.sp_node(*p0.0).sp_end_location(), self.network.sp_node(*p0.1).sp_start_location())
+//@end
+
+//@item solution/src/tour/modifications.rs Tour::costs_of_segment
+//@retname r
+//@viter
+//@sig
+    requires self.wf(), start_pos <= end_pos <= self.len(), tour_len_ok(self.nodes@),
+    ensures r as int == mid_p(self.pre(start_pos as int), self.mid(start_pos as int, end_pos as int), self.suf(end_pos as int), self.network.f_leg_cost())
+            + nsum(self.mid(start_pos as int, end_pos as int), self.network.f_node_cost()),
+//@first
+        proof {
+            let net = &self.network;
+            let m = self.mid(start_pos as int, end_pos as int);
+            assert forall|i: int| 0 <= i < m.len() implies #[trigger] net.has(m[i]) by { assert(net.has(self.nodes@[start_pos + i])); }
+            lemma_cost_sums(net, m);
+            lemma_cost_bounds(net, m);
+            if start_pos > 0 && start_pos < self.len() {
+                assert(net.has(self.nodes@[start_pos - 1]) && net.has(self.nodes@[start_pos as int]));
+                lemma_leg_facts(net, self.nodes@[start_pos - 1], self.nodes@[start_pos as int]);
+            }
+            if end_pos > 0 && end_pos < self.len() {
+                assert(net.has(self.nodes@[end_pos - 1]) && net.has(self.nodes@[end_pos as int]));
+                lemma_leg_facts(net, self.nodes@[end_pos - 1], self.nodes@[end_pos as int]);
+            }
+            if m.len() == 0 { assert(m.map_values(net.f_node_cost()) =~= Seq::<int>::empty()); }
+        }
+//@closure-params 0
+    usize
+//@closure 0
+    -> (c: Cost) requires self.wf(), pos + 1 < self.len(), tour_len_ok(self.nodes@) ensures c as int == self.network.leg_cost(self.nodes@[pos as int], self.nodes@[pos + 1])
+//@closure-params 1
+    usize
+//@closure 1
+    -> (c: Cost) requires self.wf(), i < self.len() ensures c as int == self.network.node_cost(self.nodes@[i as int])
+//@end
+
+//@item solution/src/tour/modifications.rs Tour::costs_of_new_nodes
+//@retname r
+//@viter
+//@sig
+    requires self.wf(), start_pos <= end_pos <= self.len(), tour_len_ok(self.nodes@),
+        new_nodes@.len() >= 1, all_in_net(&self.network, new_nodes@), tour_len_ok(new_nodes@),
+    ensures r as int == mid_p(self.pre(start_pos as int), new_nodes@, self.suf(end_pos as int), self.network.f_leg_cost())
+            + nsum(new_nodes@, self.network.f_node_cost()),
+//@first
+        proof {
+            let net = &self.network;
+            let m = new_nodes@;
+            lemma_cost_sums(net, m);
+            lemma_cost_bounds(net, m);
+            assert(net.has(m[0]) && net.has(m[m.len() - 1]));
+            if start_pos > 0 {
+                assert(net.has(self.nodes@[start_pos - 1]));
+                lemma_leg_facts(net, self.nodes@[start_pos - 1], m[0]);
+            }
+            if end_pos < self.len() {
+                assert(net.has(self.nodes@[end_pos as int]));
+                lemma_leg_facts(net, m[m.len() - 1], self.nodes@[end_pos as int]);
+            }
+        }
+//@closure-params 0
+    (&NodeIdx, &NodeIdx)
+//@closure 0
+    -> (c: Cost) requires self.wf(), self.network.has(*p0.0), self.network.has(*p0.1) ensures c as int == self.network.leg_cost(*p0.0, *p0.1)
+//@closure-params 1
+    &NodeIdx
+//@closure 1
+    -> (c: Cost) requires self.wf(), self.network.has(*n) ensures c as int == self.network.node_cost(*n)
+//@end
 } // verus!
 fn main() {}
